@@ -16,7 +16,7 @@ import argparse, os, random, re, subprocess, sys, json, shutil, threading, queue
 ENV = dict(os.environ, GOFLAGS='-mod=mod', GOPROXY='off', GOSUMDB='off', GOTOOLCHAIN='local')
 ALL = ['C%02d' % i for i in range(1, 21)]
 OWN = [
-    (r'gradtrack/gradients', ['C02', 'C07', 'C01', 'C15', 'C13', 'C16', 'C11']),
+    (r'gradtrack/gradients', ['C02', 'C08', 'C07', 'C01', 'C15', 'C13', 'C16', 'C11']),
     (r'gradtrack/', ['C08', 'C01', 'C02', 'C10', 'C11']),
     (r'cputensor/operators', ['C03', 'C04', 'C02']),
     (r'cputensor/reducers', ['C05', 'C02']),
@@ -189,6 +189,7 @@ def main():
     ap.add_argument('--files', default='.')
     ap.add_argument('--out', default='/tmp/mut/results.jsonl')
     ap.add_argument('--maxchecks', type=int, default=20)
+    ap.add_argument('--only', default='', help='results file of an earlier sweep: only its survivors are run again (against the current checks)')
     ap.add_argument('--skip', default='', help='results file of an earlier sweep: mutants listed there are not repeated')
     a = ap.parse_args()
     verif = os.path.abspath(os.path.join(os.path.dirname(__file__), '..'))
@@ -203,6 +204,13 @@ def main():
         for l in open(a.skip):
             d = json.loads(l); done.add((d['file'], d['line'], d['what']))
     muts = [m for m in muts if (m['file'], m['line'], m['what']) not in done]
+    if a.only:
+        want = set()
+        for l in open(a.only):
+            d = json.loads(l)
+            if d['status'] in ('survivor', 'timeout', 'verif-build-failed'):
+                want.add((d['file'], d['line'], d['what']))
+        muts = [m for m in muts if (m['file'], m['line'], m['what']) in want]
     random.Random(a.seed).shuffle(muts)
     if a.sample: muts = muts[:a.sample]
     print('%d mutants over %d files' % (len(muts), len(files)), flush=True)
